@@ -60,6 +60,8 @@ type Obligation struct {
 	Goal   string   `json:"-"`
 	// ExpectFail marks vacuity canaries: the obligation must be refuted.
 	ExpectFail bool `json:"expect_fail,omitempty"`
+	retHeap    Heap
+	retVals    []Val
 }
 
 type frameAx struct{ knew, chain, bound string }
@@ -88,6 +90,7 @@ type VC struct {
 	pre        []string
 	frameSk    map[string]string
 	specInst   int
+	keyConsts  []string
 	nnMaps     map[string]bool
 	frameLocs  []modLoc
 	pure       bool
